@@ -31,6 +31,7 @@ ASSUME = [
     "generated workloads stay within what the sender can transmit, keep the message timeout above the worst round trip and the "
     "client frame period at or below the server's per-client send period (DESIGN.md 11.2)",
     "one MTU per run for all nodes; clocks have offsets/skew/small forward steps but never run backwards",
+    "CPU time and memory are not modelled: starvation by computation and resource exhaustion are invisible (DESIGN.md 10)",
 ]
 
 MTUS = [512, 513, 576, 1000, 1280, 1499, 1500,
